@@ -9,6 +9,7 @@
 package remux
 
 import (
+	"bytes"
 	"github.com/q191201771/lal/pkg/base"
 )
 
@@ -58,6 +59,8 @@ type GopCache struct {
 	MetadataEnsureWithoutSetDataFrame []byte
 	VideoSeqHeader                    []byte
 	AacSeqHeader                      []byte
+
+	videoSeqHeaderPayload []byte // 最近一个video seq header的内容（不含封装），用于判断seq header是否发生变化
 
 	gopRing              []Gop
 	gopRingFirst         int
@@ -111,6 +114,13 @@ func (gc *GopCache) Feed(msg base.RtmpMsg, b []byte) bool {
 		}
 	case base.RtmpTypeIdVideo:
 		if msg.IsVideoKeySeqHeader() {
+			// seq header内容发生变化时（比如推流端中途修改了分辨率），之前缓存的GOP是用旧的seq header编码的，
+			// 不能再搭配新的seq header发送给新加入的订阅者，清空
+			if gc.VideoSeqHeader != nil && !bytes.Equal(gc.videoSeqHeaderPayload, msg.Payload) {
+				gc.gopRingFirst = 0
+				gc.gopRingLast = 0
+			}
+			gc.videoSeqHeaderPayload = append(gc.videoSeqHeaderPayload[:0], msg.Payload...)
 			gc.VideoSeqHeader = b
 			Log.Debugf("[%s] cache %s video seq header. size:%d", gc.uniqueKey, gc.t, len(gc.VideoSeqHeader))
 			return true
